@@ -681,4 +681,93 @@ class Qcow2L2Cache(Suite):
         return {"cluster_bits": case["cluster_bits"], "tables": len(case["l2tabs"]), "via_snapshot": bool(case.get("via_snapshot"))}
 
 
-SUITES = {"qcow2_l2cache": Qcow2L2Cache(), "vmdk_io": VmdkIo(), "qcow2_io": Qcow2Io(), "vhd_huge": VhdHuge(), "vdi_huge": VdiHuge(), "vhdx_huge": VhdxHuge(), "hds_huge": HdsHuge()}
+class VmdkGtCache(Suite):
+    """Amortised metadata I/O over a multi-extent VMDK: 2..4 sparse extents of 40..110 grain tables each (every extent's
+    working set below the 128 tables its reader keeps, the sum above), one grain per table, three round-robin passes of
+    one-sector reads over all tables of all extents.  Each table is loaded once: the passes cost the mapping metadata
+    plus a small multiple of the requested bytes, not (passes x tables)."""
+    name = "vmdk_gtcache"
+    fmt = "vmdk"
+    per_case_timeout = 120.0
+    GS, GTE = 8, 16                 # sectors per grain, entries per table
+
+    def generate(self, rng, tier):
+        out = []
+        for _ in range(8 if tier == "thorough" else 3):
+            nx = rng.randint(2, 4)
+            tabs = [rng.randint(40, 110) for _ in range(nx)]
+            while sum(tabs) <= 140:
+                tabs[rng.randrange(nx)] = rng.randint(90, 120)
+            out.append({"tables": tabs, "salt": rng.randrange(1 << 30), "slot": [rng.randrange(self.GTE) for _ in range(sum(tabs))]})
+        return out
+
+    def build(self, case):
+        files, base, k = [], 0, 0
+        for xi, t in enumerate(case["tables"]):
+            gs, gte = self.GS, self.GTE
+            cap = t * gte * gs
+            g0 = 2 + t                                       # first grain sector: header, directory (<= 1 sector), t tables
+            chunks = {0: c02.kdmv_header(1, cap, gs, 0, 0, gte, 1, overhead=g0),
+                      512: b"".join(struct.pack("<I", 2 + i) for i in range(t)).ljust(512, b"\0")}
+            where = []
+            for i in range(t):
+                slot = case["slot"][k]
+                k += 1
+                tab = bytearray(512)
+                struct.pack_into("<I", tab, 4 * slot, g0 + i * gs)
+                chunks[(2 + i) * 512] = bytes(tab)
+                where.append((base + (i * gte + slot) * gs, (g0 + i * gs) * 512))
+            fh = core.SparseFile((g0 + t * gs) * 512, chunks, salt=case["salt"] + xi)
+            files.append((fh, where, (2 * 512, (2 + t) * 512)))
+            base += cap
+        return files
+
+    def impl(self, case):
+        from dissect.hypervisor.disk.vmdk import VMDK
+        files = self.build(case)
+        try:
+            v = VMDK([f for f, _, _ in files])
+        except Exception as e:  # noqa: BLE001
+            return {"open": {"exc": type(e).__name__, "msg": str(e)[:100]}}
+        for f, _, _ in files:
+            f.reset_counters()
+        wrong = nreq = 0
+        for rnd in range(3):
+            for f, where, _ in files:
+                for gsec, foff in where:
+                    r = v.read_sectors(gsec + rnd, 1)
+                    nreq += 1
+                    if r != f.content(foff + rnd * 512, 512):
+                        wrong += 1
+        tbytes = 0
+        for f, _, (lo, hi) in files:
+            tbytes += sum(x[3] for x in f.log if x[0] == "read" and lo <= x[1] < hi)
+        return {"open": None, "table_bytes": tbytes, "bytes": sum(f.bytes_read for f, _, _ in files), "wrong": wrong, "nreq": nreq}
+
+    def judge(self, case, impl_res, coq_val):
+        if impl_res.get("outcome"):
+            return [Finding("impl_fault", f"vmdk: implementation {impl_res['outcome']}", "vmdk:gtcache:" + impl_res["outcome"])]
+        if impl_res.get("open") is not None:
+            return [Finding("impl_vs_spec", f"vmdk: well-formed extents refused: {impl_res['open']}", "vmdk:gtcache:open")]
+        fs = []
+        ntab = sum(case["tables"])
+        tsize = self.GTE * 4
+        bound = ntab * 512 + impl_res["nreq"] * 4 * 512       # every table (one sector at most) once + a few sectors per request
+        if impl_res["table_bytes"] > 2 * ntab * tsize or impl_res["bytes"] > bound:
+            fs.append(Finding("impl_vs_spec", f"vmdk: three passes over {ntab} grain tables of {tsize} bytes in {len(case['tables'])} "
+                              f"extents ({case['tables']}, each below the per-extent cache) read {impl_res['table_bytes']} table "
+                              f"bytes, {impl_res['bytes']} bytes in all; loading each table once needs {ntab * tsize} "
+                              f"(bound {bound} in all)", "vmdk:gtcache:bytes"))
+        if impl_res["wrong"]:
+            fs.append(Finding("impl_vs_spec", f"vmdk: {impl_res['wrong']} of {impl_res['nreq']} reads returned wrong bytes",
+                              "vmdk:gtcache:content"))
+        return fs
+
+    def nontrivial(self, case, impl_res, coq_val):
+        return core.sha(core.jdump(case).encode())
+
+    def dist(self, case):
+        return {"extents": len(case["tables"]), "tables": sum(case["tables"])}
+
+
+SUITES = {"qcow2_l2cache": Qcow2L2Cache(), "vmdk_gtcache": VmdkGtCache(), "vmdk_io": VmdkIo(), "qcow2_io": Qcow2Io(), "vhd_huge": VhdHuge(), "vdi_huge": VdiHuge(), "vhdx_huge": VhdxHuge(), "hds_huge": HdsHuge()}
